@@ -56,12 +56,12 @@ func init() {
 				ts = append(ts, Task{Pkg: pkg, Func: "VerifC04Decode", Args: d[:], GFMul: true, Timeout: 300, Note: "field, data symbols (free), parity symbols, bit mask of corrupted positions (free non-zero magnitudes)"})
 			}
 			// multi-error decoding on the all-zero word, full length in GF(16), incl. position 0
-			dz := [][6]int64{{0, 15, 6, 0, 7, -1}, {0, 15, 6, 14, 3, -1}, {0, 7, 4, 1, 5, -1}, {0, 15, 4, 0, -1, -1}, {2, 26, 10, 0, -1, -1}, {3, 12, 7, 11, -1, -1}}
+			dz := [][6]int64{{0, 15, 6, 0, 7, -1}, {0, 15, 6, 14, 3, -1}, {0, 7, 4, 1, 5, -1}, {0, 15, 4, 0, -1, -1}, {3, 12, 7, 11, -1, -1}}
 			if tier == "thorough" {
 				for p := int64(1); p < 15; p++ {
 					dz = append(dz, [6]int64{0, 15, 6, 0, p, -1})
 				}
-				dz = append(dz, [6]int64{0, 15, 6, 0, 7, 14}, [6]int64{1, 63, 4, 0, 62, -1}, [6]int64{2, 26, 10, 0, 25, -1})
+				dz = append(dz, [6]int64{0, 15, 6, 0, 7, 14}, [6]int64{1, 63, 4, 0, 62, -1}, [6]int64{2, 26, 10, 0, -1, -1}, [6]int64{2, 26, 10, 0, 25, -1})
 			}
 			for _, d := range dz {
 				ts = append(ts, Task{Pkg: pkg, Func: "VerifC04DecodeZero", Args: d[:], GFMul: true, Timeout: 600, Note: "field, word length, parity symbols, up to three error positions (-1 unused); all-zero code word, free non-zero magnitudes"})
